@@ -1065,6 +1065,14 @@ def gt_alias(ctx: Ctx) -> RuleResult:
     gm = ctx.method("BaseDAG", "get_multiple_nodes_aliases")
     ok3 = any(q == f.qualname for _, q in ctx.calls_in(gm))
     r.ob(ok3, {"get_multiple_nodes_aliases resolves every alias": ok3})
+    # ... and keeps every id of every alias: no loop of the helper is left early
+    early = [n for n in iter_own_nodes(gm.node) if isinstance(n, (ast.Break,))] + \
+        [n for lp in iter_own_nodes(gm.node) if isinstance(lp, (ast.For, ast.While)) for n in own_walk(lp) if isinstance(n, ast.Return)]
+    r.ob(not early, {"get_multiple_nodes_aliases keeps every id (no early exit from its loops)": not early})
+    if early:
+        r.violate("BaseDAG.get_multiple_nodes_aliases: a loop over the resolved ids is left early", gm.loc(early[0]),
+                  "the ids an alias resolves to after the point of exit are dropped: with a tag naming several nodes (or a node named twice) "
+                  "part of the selection is silently lost - excluded nodes run, targeted nodes do not", norm_src(early[0]))
     return r
 
 
@@ -1535,7 +1543,57 @@ def gt_defaultsel(ctx: Ctx) -> RuleResult:
     return r
 
 
+def gt_refalias(ctx: Ctx) -> RuleResult:
+    """A node given by reference selects THAT node: the table entry found under its id is compared with the reference."""
+    r = RuleResult("GT-REFALIAS")
+    f = ctx.method("BaseDAG", "alias_to_ids")
+    p = f.node.args.args[1].arg
+    br = [s for s in f.node.body if isinstance(s, ast.If) and "isinstance" in norm_src(s.test) and "ExecNode" in norm_src(s.test)]
+    r.require(len(br) == 1, "alias_to_ids: reference branch not found")
+    rets = [n for n in own_walk(br[0]) if isinstance(n, ast.Return)]
+    by_id = [n for n in rets if norm_src(n.value) in (f"[{p}.id]", f"[{p}.id_]")]
+    related = [n for n in own_walk(br[0]) if isinstance(n, ast.Compare) and any(
+        isinstance(x, ast.Subscript) and norm_src(x.value).endswith("exec_nodes") for x in ast.walk(n))
+        and any(isinstance(o, (ast.Is, ast.IsNot, ast.Eq, ast.NotEq)) for o in n.ops)]
+    ok = not by_id or bool(related)
+    r.ob(ok, {"reference resolved as": [norm_src(n.value) for n in rets], "table entry compared with the reference": bool(related)})
+    if not ok:
+        r.violate("BaseDAG.alias_to_ids: a node reference is resolved through its id alone", f.loc(by_id[0]),
+                  "the id is the function's qualname: two distinct decorated functions with one qualname (made by a factory, two lambdas, "
+                  "two partials) are indistinguishable - target_nodes=[triple] runs 'double', exclude_nodes=[triple] excludes 'double'",
+                  norm_src(by_id[0]))
+    return r
+
+
+def gt_rootconst(ctx: Ctx) -> RuleResult:
+    """A user node whose only inputs are constants is a root for the selection (it depends on no other node)."""
+    r = RuleResult("GT-ROOTCONST")
+    g = ctx.P.classes[graph_q(ctx)]
+    ms = g.methods.get("make_subgraph")
+    fe = g.methods.get("from_exec_nodes")
+    rn = g.methods.get("root_nodes")
+    r.require(ms is not None and fe is not None and rn is not None, "make_subgraph / from_exec_nodes / root_nodes not found")
+    # (1) the validation of root_nodes compares with the in-degree-0 nodes
+    val = [n for n in iter_own_nodes(ms.node) if isinstance(n, ast.If) and any(isinstance(b, ast.Raise) for b in n.body)
+           and "root_nodes" in norm_src(n.test)]
+    uses_indeg = bool(val) and any(isinstance(x, ast.Attribute) and x.attr == "root_nodes" for x in ast.walk(val[0].test)) \
+        and "in_degree" in ast.unparse(rn.node)
+    # (2) the graph holds one node per ExecNode, argument holders included
+    filtered = any(isinstance(x, ast.Call) and dotted(x.func) == "isinstance" and "ArgExecNode" in norm_src(x) for x in iter_own_nodes(fe.node))
+    if not val:
+        raise Undecided("make_subgraph: validation of root_nodes not recognised")
+    bad = uses_indeg and not filtered
+    r.ob(not bad, {"root validation": norm_src(val[0].test)[:80], "roots are in-degree-0 nodes": uses_indeg,
+                   "constant holders kept out of the graph": filtered})
+    if bad:
+        r.violate("DiGraphEx.make_subgraph: a root is an in-degree-0 node of a graph that holds the constant-argument nodes", ms.loc(val[0]),
+                  "load('data.csv') depends on no node, yet root_nodes=['load'] raises ValueError: its hidden argument node is the in-degree-0 "
+                  "one; only the internal id 'load>!>0th argument' is accepted", norm_src(val[0].test)[:100])
+    return r
+
+
 RULES = {
+    "GT-REFALIAS": gt_refalias, "GT-ROOTCONST": gt_rootconst,
     "GT-STALEEXEC": gt_staleexec,
     "GT-DEFAULTSEL": gt_defaultsel,
     "GT-MODEL": gt_model, "GT-CARRY": gt_carry, "GT-PRIO-SINK": gt_prio_sink, "GT-POP": gt_pop, "GT-FORMULA": gt_formula,
